@@ -14,7 +14,8 @@ POOLS = []
 WORKER_FIRED = multiprocessing.Value('i', 0)   # faults that fired inside pool workers
 
 
-CASE_TIMEOUT = 40
+CASE_TIMEOUT = 60
+RUN_BUDGET = 1000      # seconds for one harness process; later cases are reported as skipped
 
 
 class HarnessTimeout(BaseException):
@@ -251,9 +252,7 @@ def install():
         flt = hit('pool')
         if flt:
             boom(flt)
-        pool = ORIG['Pool'](*a, **kw)
-        POOLS.append(pool)
-        return pool
+        return ORIG['Pool'](*a, **kw)
 
     pysam.sort, pysam.index, pysam.merge = p_sort, p_index, p_merge
     os.remove = p_remove
@@ -477,79 +476,103 @@ def command(case, inp, out):
     return cmd
 
 
+def new_counters():
+    """Fresh shared counters for every run.  A process that is killed (injected SIGKILL, the kill of the
+    process group after a run, a timeout) while it holds the lock of a multiprocessing.Value leaves that
+    lock acquired for ever: re-using the counters made the NEXT access block the whole harness (the
+    intermittent hang of the first version).  The harness reads them without the lock."""
+    global SHARED, MOLS, WORKER_COUNTS, WORKER_FIRED
+    SHARED = multiprocessing.Value('i', 0)
+    MOLS = multiprocessing.Value('i', 0)
+    WORKER_COUNTS = {k: multiprocessing.Value('i', 0) for k in ('write_pysam', 'mol_next', 'write_tags')}
+    WORKER_FIRED = multiprocessing.Value('i', 0)
+
+
+def raw(v):
+    return v.get_obj().value
+
+
 def run_tagger(tm, case, d, out, faults):
+    """One tagger run in its OWN forked child (own process group, hard timeout).  The harness process
+    itself stays single threaded and never owns a pool: a multiprocessing.Pool left behind by a failed
+    --multiprocess run (the tagger does not close it) cannot dead-lock a later case, and whatever the
+    run leaves running is killed with its process group.  Outcome codes: 0 returned, 1+kind raised,
+    7 killed by the injected SIGKILL, 99 hang (did not end within CASE_TIMEOUT s)."""
+    global MAIN_PID
     STATE['faults'] = faults
     STATE['counts'] = {}
     STATE['fired'] = []
     STATE['out'] = os.path.abspath(out)
-    SHARED.value = 0
-    MOLS.value = 0
-    for v in WORKER_COUNTS.values():
-        v.value = 0
-    WORKER_FIRED.value = 0
+    new_counters()
     inp = os.path.join(d, 'input.bam')
     if not os.path.exists(inp):
         prepare_input(case, inp)
-    err = None
-    cwd = os.getcwd()
-    os.chdir(d)
-    buf = io.StringIO()
-    def on_alarm(signum, frame):
-        raise HarnessTimeout('tagger did not return within %d s' % CASE_TIMEOUT)
-    old_handler = signal.signal(signal.SIGALRM, on_alarm)
-    signal.alarm(CASE_TIMEOUT)
+    report = os.path.join(d, 'harness_report.json')
+    sys.stdout.flush()
+    sys.stderr.flush()
+    pid = os.fork()
+    if pid == 0:
+        code = 0
+        try:
+            MAIN_PID = os.getpid()     # the child is the tagger's main process
+            os.setpgid(0, 0)
+            os.chdir(d)
+            buf = io.StringIO()
+            err = None
+            try:
+                with contextlib.redirect_stdout(buf), contextlib.redirect_stderr(buf):
+                    tm.run_multiome_tagging_cmd(command(case, inp, out))
+                raised = 0
+            except BaseException as e:
+                raised, err = classify_exc(e), '%s: %s' % (type(e).__name__, str(e)[:200])
+            with open(report, 'w') as fh:
+                json.dump({'raised': raised, 'error': err, 'counts': STATE['counts'], 'fired': STATE['fired']}, fh)
+        except BaseException:
+            code = 3
+        finally:
+            os._exit(code)
     try:
-        if any(f.get('kind') == 'kill' for f in faults):
-            # SIGKILL sample: the tagger runs in a forked child that kills itself at the fault point
-            sys.stdout.flush()
-            pid = os.fork()
-            if pid == 0:
-                global MAIN_PID
-                MAIN_PID = os.getpid()     # the child is the tagger's main process
-                os.setpgid(0, 0)           # own process group: its pool workers are reaped below
-                try:
-                    with contextlib.redirect_stdout(buf), contextlib.redirect_stderr(buf):
-                        tm.run_multiome_tagging_cmd(command(case, inp, out))
-                except BaseException:
-                    os._exit(3)
-                os._exit(0)
-            _, wst = os.waitpid(pid, 0)
-            try:
-                os.killpg(pid, signal.SIGKILL)   # orphaned pool workers of the killed tagger
-            except OSError:
-                pass
-            if os.WIFSIGNALED(wst):
-                raised, err = 7, 'killed by signal %d (injected)' % os.WTERMSIG(wst)
-                STATE['fired'].append('kill')
-            else:
-                raised, err = (0, None) if os.WEXITSTATUS(wst) == 0 else (6, 'child raised')
-        else:
-            with contextlib.redirect_stdout(buf), contextlib.redirect_stderr(buf):
-                tm.run_multiome_tagging_cmd(command(case, inp, out))
-            raised = 0
-    except HarnessTimeout as e:
-        raised, err = 99, 'HANG: %s' % e
-    except BaseException as e:
-        raised, err = classify_exc(e), '%s: %s' % (type(e).__name__, str(e)[:200])
-    finally:
-        signal.alarm(0)
-        signal.signal(signal.SIGALRM, old_handler)
-        os.chdir(cwd)
-        STATE['faults'] = []
-        # the tagger never closes the pool when a worker failed: shut it down in the documented way
-        # (killing the worker processes first can dead-lock Pool's own finaliser)
-        while POOLS:
-            pool = POOLS.pop()
-            try:
-                pool.terminate()
-                pool.join()
-            except BaseException:
-                pass
-        for p in multiprocessing.active_children():
-            p.terminate()
-        gc.collect()
-    fired = list(STATE['fired']) + ['worker-side'] * WORKER_FIRED.value
-    return raised, err, dict(STATE['counts'], fired=fired), SHARED.value, MOLS.value
+        os.setpgid(pid, pid)
+    except OSError:
+        pass
+    t_end = time.time() + CASE_TIMEOUT
+    wst = None
+    while time.time() < t_end:
+        got, st = os.waitpid(pid, os.WNOHANG)
+        if got == pid:
+            wst = st
+            break
+        time.sleep(0.005)
+    hung = wst is None
+    try:
+        os.killpg(pid, signal.SIGKILL)     # the run itself when it hangs; otherwise what it left running
+    except OSError:
+        pass
+    if hung:
+        os.waitpid(pid, 0)
+    STATE['faults'] = []
+    rep = None
+    if os.path.exists(report):
+        try:
+            rep = json.load(open(report))
+        except Exception:
+            rep = None
+        ORIG['remove'](report)
+    if hung:
+        raised, err = 99, 'HANG: the tagger did not end within %d s' % CASE_TIMEOUT
+    elif os.WIFSIGNALED(wst):
+        raised, err = 7, 'killed by signal %d' % os.WTERMSIG(wst)
+        if os.WTERMSIG(wst) == signal.SIGKILL and any(f.get('kind') == 'kill' for f in faults):
+            err += ' (injected)'
+            STATE['fired'].append('kill')
+    elif rep is None:
+        raised, err = 98, 'harness child ended without a report (exit %d)' % os.WEXITSTATUS(wst)
+    else:
+        raised, err = rep['raised'], rep['error']
+    counts = dict(rep['counts']) if rep else {}
+    fired = (list(rep['fired']) if rep else []) + list(STATE['fired']) + ['worker-side'] * raw(WORKER_FIRED)
+    counts['fired'] = fired
+    return raised, err, counts, raw(SHARED), raw(MOLS)
 
 
 def pysam_open(path):
@@ -577,7 +600,11 @@ def handler(p):
         out['refs'][key] = {'raised': raised, 'error': err, 'world': obs['world'], 'n_records': info['n'],
                             'molecules': mols, 'jobs': jobs, 'calls': counts, 'seconds': round(time.time() - t0, 2),
                             'leftovers': obs['leftovers'], 'status_text': obs['status_text']}
+    t_start = time.time()
     for n, case in enumerate(p['cases']):
+        if time.time() - t_start > RUN_BUDGET:
+            out['cases'].append({'skipped': 'time budget of the harness process used up'})
+            continue
         if os.environ.get('C20_DEBUG'):
             sys.stderr.write('case %d %r\n' % (n, case))
             sys.stderr.flush()
